@@ -90,7 +90,7 @@ def run(chk: framework.Check):
     n_worlds = 600 if chk.tier == "quick" else 6000
     corr_fail = []
     for G, S, w in streams.worlds(chk, drv, n_worlds, no_any=True, unions=True, nt=True, enum_lits=True,
-                                   map_targets=True):
+                                   map_targets=True, class_features=True):
         for ty, x, xv in streams.typed_values(chk, G, S, w, n_types=5, n_values=2):
             unions = gen.reach_unions(w, ty)
             # a union the generator did not build to be distinguishable may be refused (hook creation or structuring
@@ -164,6 +164,10 @@ def run(chk: framework.Check):
     # implementation-only extended stream (unions, NamedTuples, registry hooks, one-shot iterables)
     from harness import ext
     ext.run_c01(chk, 150 if chk.tier == "quick" else 1500)
+    # implementation-only: hooks built with generator options (use_alias, include_init_false, overrides) are inverse
+    ext.run_genopts_roundtrip(chk, 150 if chk.tier == "quick" else 1500)
+    # implementation-only: parametrised generic classes whose argument is a parametrised type / Literal / Annotated
+    ext.run_generic_roundtrip(chk, 120 if chk.tier == "quick" else 1200)
     # implementation-only: Literal[...] over members of mix-in enums, position-wise equal literals in one process
     ext.run_enum_literals(chk, 25 if chk.tier == "quick" else 250, "C01")
     drv.close()
